@@ -178,6 +178,10 @@ fn payloads(a: &Args, maxlen: usize, dict: &[u8]) -> Vec<Payload> {
     }
     // highly compressible 64 KiB: a phrase repeated
     add("phrase:65536".into(), b"zipora pa-zip dictionary compression; ".iter().cycle().take(65536).copied().collect());
+    // beyond 64 KiB and shrunk by far more than any fixed ratio (output buffers sized from the frame)
+    add("zeros:65537".into(), vec![0u8; 65537]);
+    add("zeros:262144".into(), vec![0u8; 262144]);
+    add("phrase:300000".into(), b"2026-10-02T00:00:00Z INFO zipora blob store: request served in 12us\n".iter().cycle().take(300000).copied().collect());
     if !dict.is_empty() {
         add("dict:whole".into(), dict.to_vec());
         add("dict:prefix".into(), dict[..dict.len().min(100)].to_vec());
@@ -475,7 +479,7 @@ fn drive_trait(a: &Args, t: &mut Tracer, acc: &mut Acc, fam: &str) {
             let slow = matches!(variant, "dictionary" | "hybrid");
             let maxlen = match (slow, a.thorough()) {
                 (false, true) => 4 << 20,
-                (false, false) => 65536,
+                (false, false) => 300_000,
                 (true, true) => if train == "text" { 262144 } else { 65536 },
                 (true, false) => if train == "text" { 65536 } else { 8192 },
             };
@@ -542,7 +546,7 @@ fn drive_selector(a: &Args, t: &mut Tracer, acc: &mut Acc) {
         ("tiny_memory", PerformanceRequirements { max_memory: 1024, speed_vs_quality: 1.0, ..Default::default() }),
         ("tiny_latency", PerformanceRequirements { max_latency: Duration::from_nanos(100), speed_vs_quality: 1.0, ..Default::default() }),
     ];
-    let maxlen = if a.thorough() { 4 << 20 } else { 65536 };
+    let maxlen = if a.thorough() { 4 << 20 } else { 300_000 };
     let ps = payloads(a, maxlen, &[]);
     for (rn, req) in &reqs {
         let subject = "selector:select_best".to_string();
@@ -612,7 +616,7 @@ fn drive_adaptive(a: &Args, t: &mut Tracer, acc: &mut Acc) {
         ("speed", PerformanceRequirements { speed_vs_quality: 0.0, ..Default::default() }),
         ("quality", PerformanceRequirements { speed_vs_quality: 1.0, max_latency: Duration::from_secs(10), ..Default::default() }),
     ];
-    let maxlen = if a.thorough() { 4 << 20 } else { 65536 };
+    let maxlen = if a.thorough() { 4 << 20 } else { 300_000 };
     let mut all = payloads(a, maxlen, &corpus(a.seed, "text"));
     // the empty payload gets a run of its own (scenario "empty") so that what it does to the object is isolated
     let empty = all.remove(all.iter().position(|p| p.cls == "empty").expect("empty payload"));
@@ -776,7 +780,7 @@ fn modes() -> Vec<(&'static str, CompressionMode)> {
 
 fn drive_realtime(a: &Args, t: &mut Tracer, acc: &mut Acc) {
     let rt = tokio::runtime::Builder::new_current_thread().enable_all().build().expect("tokio runtime");
-    let maxlen = if a.thorough() { 4 << 20 } else { 65536 };
+    let maxlen = if a.thorough() { 4 << 20 } else { 300_000 };
     let all = payloads(a, maxlen, &[]);
     let few: Vec<Payload> = all
         .iter()
